@@ -40,6 +40,7 @@ Theorem C02_recovers : forall (D : decoders) w d asn phold caps,
   w_state w = StIdle -> w_auto w = true ->
   t_dl (w_tih w) = Some d -> no_earlier d w = true -> t_dl (w_tdo w) = None ->
   d_open D open_body = OpOk asn phold caps -> asn = cf_remote_as (w_cfg w) ->
+  (phold = 0 \/ 3 <= phold) ->
   (N.min (cf_hold (w_cfg w)) phold = 0 \/ 3 <= N.min (cf_hold (w_cfg w)) phold) ->
   let n := length (w_conns w) in
   let es := [EFire TIdleHold; EConnOk n; EData n open_frame; EData n ka_frame] in
@@ -47,7 +48,11 @@ Theorem C02_recovers : forall (D : decoders) w d asn phold caps,
   w_state w' = StEstablished /\ w_proto w' = Some n /\
   w_hold w' = N.min (cf_hold (w_cfg w)) phold /\ w_now w' = d /\
   (exists a i cs, In (OWrite n (WOpen a (cf_hold (w_cfg w)) i cs)) (run_outs D w es)).
-Proof. exact recovers. Qed.
+Proof.
+  intros D w d asn phold caps Hs Ha Ht Hn Hd Ho Heq Hp Hm.
+  apply (recovers D w d asn phold caps Hs Ha Ht Hn Hd Ho Heq).
+  apply hold_refused_false; assumption.
+Qed.
 Print Assumptions C02_recovers.
 
 (** the premises describe reachable worlds: e.g. after a session was torn down by a NOTIFICATION *)
